@@ -264,10 +264,7 @@ func TestVerifC09Decision(t *testing.T) {
 			default:
 				atomic.AddInt64(&nNeg, 1)
 			}
-			if err != nil && !want {
-				// a complete 2-byte reply is an orderly negative, not an error
-				run.Violation("decision:error-on-complete-reply", fmt.Sprintf("server answered %02x %02x completely; the probe returned error %v", j.reply[0], j.reply[1], err), w)
-			}
+			// (for a reply other than 05 00 the statement allows "nothing or an error": not judged)
 			if len(conns) != 1 || string(conns[0].got) != "\x05\x01\x00" {
 				got := "no connection"
 				if len(conns) > 0 {
